@@ -454,7 +454,14 @@ pub mod details {
                 }
             };
 
-            storage.get().reserve_port(port_to_register.value(), msg)?;
+            if let Err(e) = storage.get().reserve_port(port_to_register.value(), msg) {
+                // When this instance has just created the storage it still owns it. Another
+                // instance attached itself between the creation and the port reservation, the
+                // storage is therefore in use and its lifetime is handled by the attached
+                // instances. Dropping it with ownership would remove it underneath them.
+                storage.release_ownership();
+                return Err(e);
+            }
 
             if storage.has_ownership() {
                 storage.release_ownership();
